@@ -324,9 +324,28 @@ fn check_c11(pe: &PointEval, item: u64, acc: &mut Acc) {
                 let ln_u = ln_q(&ex0.det);
                 let ln_v = ln_q(&ex0.v);
                 let ln_want = n.ln() + d_half * (ln_ut - ln_u) + su.omega * ((ln_ft - ln_ut) - ln_v);
+                let ln_target = -d_half * ln_ut - su.omega * (ln_ft - ln_ut);
+                acc.max("ln_rescaling_target_max", ln_target);
+                if ln_target > 345.0 {
+                    acc.count("points_with_rescaling_target_above_1e150");
+                }
                 let sumabs: f64 = lx.iter().map(|v| v.abs()).sum();
                 let tol = budget + 64.0 * EPS * (1.0 + su.omega + su.g.d as f64) * (1.0 + sumabs + ln_u.abs() + ln_v.abs()) + 1e-11;
                 let err = (out.jacobian.ln() - ln_want).abs();
+                // the factors as they come out of a correct rescaling: u = U/U_tr, v = V/V_tr
+                let f1 = d_half * (ln_u - ln_ut);
+                let f2 = su.omega * (ln_v - (ln_ft - ln_ut));
+                if ln_want > -600.0 && ln_want < 600.0 && !(f1.abs() < 650.0 && f2.abs() < 650.0) {
+                    // a factor of the library's formula leaves the normal range although the product
+                    // does not: the product is then only as accurate as a subnormal intermediate
+                    acc.count("gauge_invariance_skipped_factor_outside_f64_range");
+                } else if !(ln_want > -600.0 && ln_want < 600.0) {
+                    // the exact weight is not a normal f64: only its order of magnitude can be compared
+                    acc.count("gauge_invariance_weight_outside_f64_range");
+                    if (ln_want <= -600.0 && out.jacobian.abs() > 1e-200) || (ln_want >= 600.0 && out.jacobian.abs() < 1e200) {
+                        fails.push(format!("ln jacobian = {:e} although the exact value has ln = {:e}", out.jacobian.ln(), ln_want));
+                    }
+                } else {
                 acc.max("gauge_invariance_error_over_tol", err / tol);
                 acc.count("gauge_invariance_checked");
                 if !(err <= tol) {
@@ -337,6 +356,7 @@ fn check_c11(pe: &PointEval, item: u64, acc: &mut Acc) {
                         err,
                         tol
                     ));
+                }
                 }
             }
         }
@@ -443,7 +463,13 @@ fn check_c02(pe: &PointEval, item: u64, acc: &mut Acc) {
     let lo = -d_half * nt.ln() - su.omega * ln_csum;
     let hi = su.omega * (nt.ln() - ln_cmin);
     let s2 = slack * (1.0 + d_half + su.omega);
-    if v_ok && !(ratio_ln >= lo - s2 && ratio_ln <= hi + s2) {
+    let jac_ln_abs_lo = lo + su.norm.ln();
+    let jac_ln_abs_hi = hi + su.norm.ln();
+    if (out.jacobian.abs() < 1e-290 && jac_ln_abs_lo < -660.0) || (out.jacobian.is_infinite() && jac_ln_abs_hi > 700.0) {
+        // the a-priori interval itself leaves the range of f64: an underflowed / overflowed weight
+        // is a correct rounding of a value this clause cannot pin down
+        acc.count("weight_bounds_skipped_interval_leaves_f64_range");
+    } else if v_ok && !(ratio_ln >= lo - s2 && ratio_ln <= hi + s2) {
         fails.push(format!("ln(jacobian/normalisation) = {:e} outside [{:e}, {:e}]", ratio_ln, lo, hi));
     }
     // how far inside the interval (coverage: proximity to the bounds)
@@ -514,11 +540,18 @@ fn one_point(su: &Setup, x: &[f64], which: Which, item: u64, acc: &mut Acc) -> O
 
 fn graph_case(item: u64, rng: &mut Rng, acc: &mut Acc, which: Which, quick: bool) {
     let mut o = GraphOpts::std(if quick { 6 } else { 8 });
+    if which != Which::C02 {
+        o.big_loop_prob = 0.04;
+    }
     match which {
         Which::C08 | Which::C10 => {
             o.named_prob = 0.4;
         }
-        Which::C11 => o.allow_single_external = false,
+        Which::C11 => {
+            o.allow_single_external = false;
+            // large dod next to light massless lines: the rescaling target reaches 1e150 and more
+            o.heavy_massive_prob = 0.3;
+        }
         Which::C02 => o.disconnected_prob = 0.15,
         _ => {}
     }
@@ -576,7 +609,15 @@ fn graph_case(item: u64, rng: &mut Rng, acc: &mut Acc, which: Which, quick: bool
                     acc.count("metamorphic_routing_pairs");
                     let du = ((u1 - u0) / u0).abs();
                     let dv = ((v1 - v0) / v0).abs();
-                    let dj = ((j1 - j0) / j0).abs();
+                    // weights that underflow (or overflow) identically under both routings agree
+                    let dj = if j0 == j1 || (j0.abs() < 1e-290 && j1.abs() < 1e-290) {
+                        if j0.abs() < 1e-290 {
+                            acc.count("metamorphic_pairs_with_underflowed_weight");
+                        }
+                        0.0
+                    } else {
+                        ((j1 - j0) / j0).abs()
+                    };
                     let tj = su.g.d as f64 / 2.0 * tu + su.omega * tv + 64.0 * EPS * (1.0 + su.omega * v0.ln().abs() + su.g.d as f64 * u0.ln().abs());
                     let bad = if which == Which::C08 { !(du <= tu) } else { !(du <= tu) || !(dv <= tv) || !(dj <= tj) };
                     if bad {
